@@ -4,6 +4,7 @@ import Verif.Proofs.JsMinSound
 import Verif.Proofs.JsMinMono
 import Verif.Proofs.JsStmtSound
 import Verif.Proofs.JsPrintGwf
+import Verif.Proofs.JsRwGwf
 set_option linter.unusedSimpArgs false
 /-!
 # C01 — JS minification preserves program behaviour (partial: the fragment of `Spec.JsSyntax`)
@@ -74,6 +75,24 @@ theorem print_derives_parsed (fuel : Nat) (e : E) (p : Prec) (t : E) (hp : p ≤
   print_derives fuel e p t hp (Verif.Proofs.JsPrintGwf.gwf_wfGo e hg)
     (Verif.Proofs.JsPrintGwf.fitsIn_of_lvl p e hl) h
 
+/-- the same for the traversal WITH all rewrites (`minE`: `optimizeCondExpr` / `optimizeUnaryExpr` at every node, De Morgan,
+    `a?b:c → a&&b`, `??`, call merging, comma conditions, … followed by the printer's decisions): every rewrite
+    re-parenthesises its operands correctly (`groupExpr`), so the tokens written derive the output tree -/
+theorem minify_derives (v20 : Bool) (fuel : Nat) (e : E) (p : Prec) (t : E) (hp : p ≤ opCall)
+    (hw : Verif.Proofs.JsPrintGwf.wfGo e = true) (hf : Verif.Proofs.JsPrintGwf.FitsIn p e = true)
+    (h : minE v20 fuel e p = some t) : DerivesA p (yield t) t := by
+  have hp' : p ≤ 17 := by
+    have : opCall = 17 := by decide
+    rw [this] at hp; exact hp
+  have inv := Verif.Proofs.JsRwGwf.minE_gwf v20 fuel e p t hp' hw h
+  exact ⟨inv.g, inv.lv hf, rfl⟩
+
+/-- … in particular for every derivation tree of the strict grammar (what `js.Parse` produces) -/
+theorem minify_derives_parsed (v20 : Bool) (fuel : Nat) (e : E) (p : Prec) (t : E) (hp : p ≤ opCall)
+    (hg : gwf e = true) (hl : p ≤ lvl e) (h : minE v20 fuel e p = some t) : DerivesA p (yield t) t :=
+  minify_derives v20 fuel e p t hp (Verif.Proofs.JsPrintGwf.gwf_wfGo e hg)
+    (Verif.Proofs.JsPrintGwf.fitsIn_of_lvl p e hl) h
+
 /-- assignment targets stay assignment targets -/
 theorem print_target (fuel : Nat) (e : E) (p : Prec) (t : E) (hp : p ≤ opCall)
     (hw : Verif.Proofs.JsPrintGwf.wfGo e = true)
@@ -107,6 +126,12 @@ example : Verif.Proofs.JsPrintGwf.wfGo (.bin .bor (.bin .bor (.var "a") (.var "b
 example : Verif.Proofs.JsPrintGwf.wfGo (.bin .mul (.group (.bin .add (.var "a") (.var "b"))) (.var "c")) = true ∧
     printT 9 (.bin .mul (.group (.bin .add (.var "a") (.var "b"))) (.var "c")) 1
       = some (.bin .mul (.group (.bin .add (.var "a") (.var "b"))) (.var "c")) := by
+  constructor <;> rfl
+
+-- `x*!(a&&b)` → `x*(!a||!b)` is not done (the group costs more than it saves), `!(a==b&&c)` → `a!=b||!c` is
+example : Verif.Proofs.JsPrintGwf.wfGo (.unary .not (.group (.bin .land (.bin .eq (.var "a") (.var "b")) (.var "c")))) = true ∧
+    minE true 9 (.unary .not (.group (.bin .land (.bin .eq (.var "a") (.var "b")) (.var "c")))) 1
+      = some (.bin .lor (.bin .ne (.var "a") (.var "b")) (.unary .not (.var "c"))) := by
   constructor <;> rfl
 
 /-! ## B. the expression rewrites preserve behaviour
